@@ -1,5 +1,6 @@
 #!/bin/sh
 # usage: bin/try_patch.sh <patch.diff> <ID> [check args...]   - apply a seeded change to /repo, run one check, undo
+if [ -z "$VERIF_LOCK_HELD" ]; then VERIF_LOCK_HELD=1; export VERIF_LOCK_HELD; exec flock /tmp/verif_repo.lock "$0" "$@"; fi
 P=$(realpath "$1"); shift
 git -C /repo diff --quiet || { echo "repo dirty"; exit 9; }
 git -C /repo apply "$P" || { echo "patch does not apply"; exit 9; }
